@@ -19,7 +19,7 @@ for d in sorted(glob.glob(V + '/seeded/C*-m*')):
         return ' '.join(m.group(1).split()) if m else ''
     caught = [q for q, v in mat.get(sid, []) if v == 'caught']
     missed = [q for q, v in mat.get(sid, []) if v != 'caught' and q not in caught]
-    rnd = 2 if int(sid.split('-m')[1]) >= 3 else 1
+    rnd = int(open(d + '/round.txt').read()) if os.path.exists(d + '/round.txt') else (2 if int(sid.split('-m')[1]) >= 3 else 1)
     meta = dict(id=sid, property=prop, round=rnd, title=title, change=field('Change'), breaks=field('Breaks'),
                 needs_to_manifest=field('Needs'),
                 files=dict(patch='patch.diff', demonstration='demo_test.go.txt', notes='notes.md'),
